@@ -309,10 +309,14 @@ def _rectangular_arrays(ctx, lc, fo):
     guarded by a condition on the row lengths of *that* table."""
     chk, repo = ctx.chk, ctx.repo
     n_sites = 0
-    for c in repo.subclasses(fo.qualname):
-        for m in list(c.methods.values()):
-            if m.cls is not c:
-                continue
+    units = [(c, m) for c in repo.subclasses(fo.qualname) for m in list(c.methods.values()) if m.cls is c]
+    # module-level helpers of the feature-observer modules build such tables too
+    fo_modules = {c.module.name for c in repo.subclasses(fo.qualname)}
+    for mi in repo.modules.values():
+        if mi.name in fo_modules:
+            units += [(None, f) for f in mi.functions.values() if not isinstance(f.node, ast.Lambda)]
+    for c, m in units:
+        if True:
             for n in own_nodes(m.node):
                 if not (isinstance(n, ast.Call) and (dotted(n.func) or "").split(".")[-1] in ("array", "asarray") and n.args):
                     continue
@@ -327,9 +331,17 @@ def _rectangular_arrays(ctx, lc, fo):
                 if isinstance(x.elt, ast.ListComp) and ast.unparse(x.elt.generators[0].iter) != ast.unparse(x.generators[0].target):
                     continue
                 n_sites += 1
-                guards = _guards_of(ctx, lc, c, m, n)
+                guards = _guards_of(ctx, lc, c, m, n) if c is not None else _guards_in_function(ctx, m, n) + _call_site_guards(ctx, lc, m)
                 texts = [g for g in guards]
                 ok = any(table in g and "len(" in g for g in texts)
+                # a guard that could not be expanded (a flag kept in another object, a
+                # parameter, a helper's result) may well be the row-length condition
+                opaque = [g for g in texts if not ("len(" in g) and ("self." in g or "." in g or g.isidentifier())]
+                if not ok and opaque:
+                    raise AnalysisError(
+                        f"{m.loc(n)}: np.array over `{table}` runs under `{opaque[0][:80]}`, whose meaning could not be resolved; "
+                        "whether it constrains the row lengths is not decided"
+                    )
                 if ok:
                     chk.ok("R11.e", m.qualname, m.loc(n), f"np.array over {table} guarded by a row-length condition on {table}")
                 else:
@@ -343,6 +355,49 @@ def _rectangular_arrays(ctx, lc, fo):
                         loc=m.loc(n),
                     )
     return n_sites
+
+
+def _call_site_guards(ctx, lc, helper):
+    """Guards at the (single) call site of a module-level helper."""
+    sites = []
+    for g in ctx.repo.all_functions():
+        if isinstance(g.node, ast.Lambda) or g.module is not helper.module:
+            continue
+        for x in own_nodes(g.node):
+            if isinstance(x, ast.Call) and isinstance(x.func, ast.Name) and x.func.id == helper.name:
+                sites.append((g, x))
+    if len(sites) != 1:
+        return []
+    g, x = sites[0]
+    if g.cls is not None:
+        return _guards_of(ctx, lc, g.cls, g, x)
+    return _guards_in_function(ctx, g, x) + _call_site_guards(ctx, lc, g)
+
+
+def _guards_in_function(ctx, m, node):
+    """Conditions under which ``node`` runs inside a plain function: enclosing
+    ifs and earlier `if <test>: return/raise` guard clauses (negated)."""
+    out = []
+    parents = m.module.parents
+    child, cur = node, parents.get(node)
+    while cur is not None:
+        if isinstance(cur, ast.If) and child in cur.body:
+            out.append(ctx.norm.xtext(m, cur.test))
+        elif isinstance(cur, ast.If) and child in cur.orelse and isinstance(cur.test, ast.UnaryOp) and isinstance(cur.test.op, ast.Not):
+            out.append(ctx.norm.xtext(m, cur.test.operand))
+        if isinstance(cur, ast.IfExp) and child is cur.body:
+            out.append(ctx.norm.xtext(m, cur.test))
+        body = getattr(cur, "body", None)
+        if isinstance(body, list) and child in body:
+            for st in body[: body.index(child)]:
+                if isinstance(st, ast.If) and not st.orelse and st.body and isinstance(st.body[-1], (ast.Return, ast.Raise, ast.Continue)):
+                    t = st.test
+                    if isinstance(t, ast.UnaryOp) and isinstance(t.op, ast.Not):
+                        out.append(ctx.norm.xtext(m, t.operand))
+        if cur is m.node:
+            break
+        child, cur = cur, parents.get(cur)
+    return out
 
 
 def _guards_of(ctx, lc, cls, m, node, _depth=0):
@@ -362,6 +417,11 @@ def _guards_of(ctx, lc, cls, m, node, _depth=0):
                 out.append(_expand_flags(ctx, lc, cls, m, t.operand))
         elif isinstance(cur, ast.match_case) and cur.guard is not None:
             out.append(_expand_flags(ctx, lc, cls, m, cur.guard))
+        elif isinstance(cur, ast.IfExp):
+            if child is cur.body:
+                out.append(_expand_flags(ctx, lc, cls, m, cur.test))
+            elif child is cur.orelse and isinstance(cur.test, ast.UnaryOp) and isinstance(cur.test.op, ast.Not):
+                out.append(_expand_flags(ctx, lc, cls, m, cur.test.operand))
         child, cur = cur, m.module.parents.get(cur)
     if _depth < 2 and m.name != "__init__":
         sites = []
